@@ -191,6 +191,16 @@ def onOpenedAddr (w : World) (aw : AddrWorld) (toks : List String) : World × Ad
       if b.root != s!"@{arg toks "root"}@" then
         w.fail "C14" "open" s!"peer {q}: opening '{addr}' gives a store that prints its address as '{str}' but carries the manifest of {arg toks "root"}" else w
     | none => w.fail "C14" "open" s!"peer {q}: opening '{addr}' gives a store whose printed address '{str}' is not an address"
+  -- C14 (self-describing): the address of the store that came back is the address of a database — the
+  -- one its root's manifest was created for, under the name it was created with
+  let w := match parse0 isCidTok str with
+    | some b =>
+      match aw.ocNet.find? (fun (x : String × OC.Manifest) => x.1 == b.root) with
+      | some (_, m) =>
+        if joinAddr b.root m.name != print b then
+          w.fail "C14" "selfdesc" s!"peer {q}: opening '{addr}' gives a store at '{str}', which is no database's address: the manifest under that root was created for the name '{m.name}'" else w
+      | none => w
+    | none => w
   let w := match aw.info.find? (·.1 == arg toks "root") with
     | some (_, ty, wl) =>
       let w := if arg toks "type" != ty then w.fail "C14" "type" s!"opening '{addr}' gives type {arg toks "type"}, {arg toks "root"} was created as {ty}" else w
